@@ -11,6 +11,7 @@ import Desync.Model.Protocol
 import Desync.Model.VerifyIndex
 import Desync.Hash.Sha2
 import Desync.Model.Chunk
+import Desync.Model.ReadSeeker
 
 namespace Driver
 open Desync
@@ -258,6 +259,64 @@ def cmdFromStorage (a : Args) : String :=
       | none => "ok nodata"
   | _, _ => "bad-op"
 
+def parseRChunks (s : String) : List RChunk :=
+  if s.isEmpty then [] else
+  (s.splitOn ",").filterMap fun p =>
+    match p.splitOn ":" with
+    | [id, st, sz] => some ⟨id.toNat?.getD 0, st.toNat?.getD 0, sz.toNat?.getD 0⟩
+    | _ => none
+
+def parseBlobs (s : String) : List (Nat × Bytes) :=
+  if s.isEmpty then [] else
+  (s.splitOn ";").filterMap fun p =>
+    match p.splitOn "=" with
+    | [id, h] => (ofHex h).map fun b => (id.toNat?.getD 0, b)
+    | _ => none
+
+def parseInt (s : String) : Int :=
+  if s.startsWith "-" then - ((s.drop 1).toString.toNat?.getD 0 : Nat) else (s.toNat?.getD 0 : Nat)
+
+/-- `ip.ops chunks=id:start:size,… len= nullid= nulllen= blobs=id=hex;… fail=k,k ops=S0:17,S1:-5,S2:0,R100,F40:10` -/
+def cmdIpOps (a : Args) : String :=
+  let chunks := parseRChunks (a.get "chunks")
+  let blobs := parseBlobs (a.get "blobs")
+  let fails := natList (a.get "fail")
+  -- a chunk object cannot hold empty data (`Data()` fails with "no data in chunk")
+  let fetch : Fetch := fun k id =>
+    if fails.contains k then none else
+    match blobs.lookup id with
+    | some [] => none
+    | x => x
+  let ip0 := IdxPos.new chunks (a.nat "len") (a.nat "nullid") (a.nat "nulllen")
+  let ops := if (a.get "ops").isEmpty then [] else (a.get "ops").splitOn ","
+  let step (st : IdxPos × Nat × List String) (op : String) : IdxPos × Nat × List String :=
+    let (ip, calls, out) := st
+    if op.startsWith "S" then
+      match ((op.drop 1).toString).splitOn ":" with
+      | [w, off] =>
+        let wh := if w == "0" then Whence.start else if w == "1" then Whence.current else Whence.end_
+        match ip.seek (parseInt off) wh with
+        | .ok ip' => (ip', calls, out ++ [s!"s:{ip'.pos}"])
+        | .error _ => (ip, calls, out ++ [s!"s:err:{ip.pos}"])
+      | _ => (ip, calls, out ++ ["bad-op"])
+    else if op.startsWith "R" then
+      let n := ((op.drop 1).toString).toNat?.getD 0
+      match ip.read fetch n calls with
+      | (.data b, ip', c) => (ip', c, out ++ ["r:" ++ toHex b])
+      | (.eof b, ip', c) => (ip', c, out ++ ["e:" ++ toHex b])
+      | (.err b, ip', c) => (ip', c, out ++ ["x:" ++ toHex b])
+      | (.panic, ip', c) => (ip', c, out ++ ["panic"])
+    else if op.startsWith "F" then
+      match ((op.drop 1).toString).splitOn ":" with
+      | [off, n] =>
+        match ip.fuseRead fetch (off.toNat?.getD 0) (n.toNat?.getD 0) calls with
+        | (some b, ip', c) => (ip', c, out ++ ["f:" ++ toHex b])
+        | (none, ip', c) => (ip', c, out ++ ["f:EIO"])
+      | _ => (ip, calls, out ++ ["bad-op"])
+    else (ip, calls, out ++ ["bad-op"])
+  let (_, _, out) := ops.foldl step (ip0, 0, [])
+  String.intercalate "," out
+
 def runLine (l : String) : String :=
   match l.splitOn " " with
   | [] => "bad-op"
@@ -268,6 +327,7 @@ def runLine (l : String) : String :=
     | "idx.encode" => cmdIdxEncode a
     | "chunk.all" => cmdChunkAll a
     | "hash" => cmdHash a
+    | "ip.ops" => cmdIpOps a
     | "chunk.fromstorage" => cmdFromStorage a
     | "verify.index" => cmdVerifyIndex a
     | "fmt.next" => cmdFmtNext a
